@@ -41,4 +41,10 @@ __CPROVER_requires(0 <= x && x <= (long)UINT_MAX)
 __CPROVER_assigns()
 __CPROVER_ensures(__CPROVER_return_value == (sector_count_type)x);
 
+/* last sector occupied: start + ceil(len/256) - 1; for a zero-length file the code answers `start` (same text as dfs_catalog.h) */
+static sector_count_type CatalogEntry_last_sector(const struct CatalogEntry *self)
+__CPROVER_requires(CE_FRESH) __CPROVER_assigns()
+__CPROVER_ensures(__CPROVER_return_value ==
+                  (SPEC_LENGTH == 0 ? SPEC_START : SPEC_START + SPEC_SECTORS_OF(SPEC_LENGTH) - 1));
+
 #endif
